@@ -57,6 +57,7 @@ type c17Run struct {
 	nInc    int
 	evicted [c17NTor]bool // the blob of the torrent was evicted from the cache since it last became complete
 	pending []string      // sends of the current operation
+	curOp   string        // kind of the operation being executed
 	// a piece writer parked inside agentstorage's WritePiece (between marking its piece complete and counting it)
 	parked [c17NTor]*c17Parked
 	early  map[*dispatch.Dispatcher]bool // its completion notice was seen before the blob was committed
@@ -110,10 +111,14 @@ func (r *c17Run) deliver(wid int, class string, i int) {
 	r.pending = append(r.pending, fmt.Sprintf("w%d:%s:%s", wid, class, verifh.Bool(ca)))
 	if class == "ok" && !ca {
 		// two situations are known findings with their own keys; anything else is a plain violation
+		// (each known key is tied to its own history: the stale-object one to the application of the event of a
+		// request whose CreateTorrent saw the blob cached; the eviction one to a completion notice applied after the
+		// eviction. An `ok` for an evicted blob from a request's own event — e.g. the complete-control fast path — is
+		// neither.)
 		key := "success-without-blob"
-		if q := r.reqs[wid]; q != nil && q.staleComplete {
+		if q := r.reqs[wid]; q != nil && q.staleComplete && r.curOp == "apply" {
 			key = "success-from-stale-torrent-object"
-		} else if i >= 0 && r.evicted[i] {
+		} else if i >= 0 && r.evicted[i] && r.curOp == "notice" {
 			key = "success-after-eviction"
 		}
 		r.tr.PropFail(key, fmt.Sprintf("w%d", wid))
@@ -354,6 +359,7 @@ func (r *c17Run) do(op []string, tors *[]int) bool {
 			}
 		}
 	}
+	r.curOp = op[1]
 	switch {
 	case op[1] == "adv" && len(op) == 3:
 		n, err := strconv.ParseInt(op[2], 10, 64)
